@@ -81,4 +81,74 @@ example : FlatSheet [.style [0x61] [⟨[0x62], [.uri [0x78], .fn [0x66] [.tok [0
   simp at hc
   rcases hc with rfl | rfl <;> simp [Comp.flat, compsUrlsDeep, compUrlsDeep]
 
+/-! ## T19.2 — re-basing: the path algebra of `Replacer` (`os.path.normpath`) against `urljoin`
+
+`T` = the path segments of the importing sheet's directory as `urljoin` splits them, `D` = the directory segments of
+the @import href (`css/sub/a.css` ↦ `[css, sub]`), `g` = its file name, `U ++ [f]` = the segments of a relative
+`url()` of the imported sheet. `normComps false` is the loop of `os.path.normpath` on a relative path, `rdsSegs` the
+dot-segment removal of `urljoin`; the model's `normpath`/`urljoin` are built from exactly these. -/
+
+/-- T19.2 [W1]: seen from the importing (combined) sheet the re-based URL `norm (D ++ U ++ [f])` resolves to the
+path the original URL resolved to from the imported sheet's own location — for every base directory (also when
+`..` climbs above the root, where `urljoin` clamps), every import directory and every relative URL whose
+segments are non-empty and whose last segment is a name. -/
+theorem rebased_url_resolves_identically (T D U : List Str) (g f : Str)
+    (hD : ∀ c ∈ D, c ≠ []) (hU : ∀ c ∈ U, c ≠ []) (hg : Normal g) (hf : Normal f) :
+    rdsSegs (T ++ normComps false (D ++ U ++ [f]))
+      = rdsSegs ((rdsSegs (T ++ D ++ [g])).dropLast ++ (U ++ [f])) := by
+  rw [rdsSegs_two_step T D (U ++ [f]) g hg (by simp)]
+  have h : ∀ c ∈ D ++ U, c ≠ [] := by
+    intro c hc
+    rcases List.mem_append.mp hc with hc | hc
+    · exact hD c hc
+    · exact hU c hc
+  have := rdsSegs_norm T (D ++ U) f h hf
+  simpa [List.append_assoc] using this
+
+/-- the same with the stacks spelled out: normalising never changes what dot-segment removal yields -/
+theorem normpath_then_resolve (S cs : List Str) (h : ∀ c ∈ cs, c ≠ []) :
+    (normComps false cs).foldl rdsStep S = cs.foldl rdsStep S := rds_norm_fold S cs h
+
+/-- non-vacuity, and the clamping case: main sheet `/main.css`, `@import "c/a"`, `url(../../../x)`; the root's
+empty segment is popped too and `urlunsplit` puts the leading slash back -/
+example : rdsSegs ([[]] ++ normComps false ([[0x63]] ++ [dotdot, dotdot, dotdot] ++ [[0x78]])) = [[0x78]] ∧
+    rdsSegs ((rdsSegs ([[]] ++ [[0x63]] ++ [[0x61]])).dropLast ++ ([dotdot, dotdot, dotdot] ++ [[0x78]]))
+      = [[0x78]] := by decide
+
+/-- `Replacer` keeps anything absolute: a URL with a scheme, with a host (`//host/…`) or with a root-relative path
+is returned as it is (`__init__.py:281-283`) -/
+theorem replacer_keeps_absolute (base uri : Str) (s : Split) (h : urlsplit uri = .ok s)
+    (habs : s.scheme ≠ [] ∨ s.netloc ≠ [] ∨ startsWith [cSlash] s.path = true) :
+    replacerCall base uri = .ok uri := by
+  simp only [replacerCall, h]
+  rw [if_pos habs]
+
+/-- … and for a relative one it re-bases the path only: query and fragment are put back unchanged (fix dd65231) -/
+theorem replacer_relative (base uri : Str) (s : Split) (h : urlsplit uri = .ok s)
+    (hrel : s.scheme = [] ∧ s.netloc = [] ∧ startsWith [cSlash] s.path = false) (p : Str)
+    (hq : quote (normpath (pjoin base [(psplit s.path).1, (psplit s.path).2])) = .ok p) :
+    replacerCall base uri = .ok (urlunsplit { scheme := [], netloc := [], path := p, query := s.query,
+                                              fragment := s.fragment }) := by
+  simp only [replacerCall, h]
+  rw [if_neg (by simp [hrel.1, hrel.2.1, hrel.2.2]), hq]
+
+/-- `quote(…, safe='/%')` is the identity on unreserved characters, `/` and `%` (fix dd65231: escapes survive) -/
+theorem quote_identity_on_safe (s : Str) (h : QuoteSafe s) : quote s = .ok s := quote_safe s h
+
+/-- the string-level `normpath` of a relative path is the segment-level `normComps false` -/
+theorem normpath_relative (p : Str) (h0 : p ≠ []) (h1 : p.head? ≠ some cSlash) :
+    normpath p = (if joinWith cSlash (normComps false (splitOn cSlash p)) = [] then dot
+                  else joinWith cSlash (normComps false (splitOn cSlash p))) := by
+  have hi : initialSlashes p = 0 := by
+    unfold initialSlashes
+    split <;> simp_all [cSlash]
+  simp [normpath, h0, hi]
+
+/-- worked example with the real strings: `@import "css/a.css"`, `url(../img/x.png?v=2#f)` -/
+example : replacer (CssVerif.Proto.cps "css/a.css") (CssVerif.Proto.cps "../img/x.png?v=2#f")
+    = .ok (CssVerif.Proto.cps "img/x.png?v=2#f") := by decide
+
+example : urljoin (CssVerif.Proto.cps "http://h/base/main.css") (CssVerif.Proto.cps "img/x.png?v=2#f")
+    = urljoin (CssVerif.Proto.cps "http://h/base/css/a.css") (CssVerif.Proto.cps "../img/x.png?v=2#f") := by decide
+
 end CssVerif.C19
